@@ -95,7 +95,7 @@ func init() {
 			ver := r.Intn(2)
 			phone := randPhone(r, ver)
 			phone[len(phone)-1] = byte(c%100/10<<4 | c%10) // distinct keys
-			phone[len(phone)-2] = byte(c / 100 % 100 / 10 << 4 | c/100%10)
+			phone[len(phone)-2] = byte(c/100%100/10<<4 | c/100%10)
 			if c == 1 {
 				for i := range phone {
 					phone[i] = 0 // the all-zero phone
